@@ -266,3 +266,18 @@ func (g geom) AX(x poly.Rat) poly.Rat { return x.Sub(poly.RatVar("vb.MinX")).Mul
 func (g geom) AY(y poly.Rat) poly.Rat { return y.Sub(poly.RatVar("vb.MinY")).Mul(g.Dy).Div(g.H) }
 func (g geom) RX(x poly.Rat) poly.Rat { return x.Mul(g.Dx).Div(g.W) }
 func (g geom) RY(y poly.Rat) poly.Rat { return y.Mul(g.Dy).Div(g.H) }
+
+// DebugRend evaluates a Renderer method on the post-Reset state (for ivgsa dump).
+func DebugRend(c *Ctx, method string, opaque []string, pinAtoms []string) (*sym.Interp, *sym.Mem) {
+	r := c.newRend()
+	fn := c.Method("render", "Renderer", method, true)
+	if !r.ok || fn == nil {
+		return nil, nil
+	}
+	pins := map[string]*sym.Term{}
+	for _, p := range pinAtoms {
+		pins[p] = sym.Atom(p, nil)
+	}
+	in, mem, _ := r.run(fn, pins, opaque...)
+	return in, mem
+}
